@@ -12,7 +12,8 @@ Pats(n, e) == IF n = 0 /\ e = 0 THEN {<<>>}
 AllPats(n, maxE) == UNION {Pats(n, e) : e \in 0..maxE}
 
 ImgA(n, h, shape, fam, comp, data, refs, alg) ==
-  [n |-> n, hist |-> h, shape |-> shape, fam |-> fam, comp |-> comp, data |-> data, refs |-> refs, alg |-> alg]
+  [n |-> n, hist |-> h, shape |-> shape, fam |-> fam, comp |-> comp, data |-> data, refs |-> refs, alg |-> alg, ut |-> FALSE]
+UT(i) == [i EXCEPT !.ut = TRUE]      \* the same image with every time stamp set to one instant
 Img(n, h, shape, fam, comp, data, refs) == ImgA(n, h, shape, fam, comp, data, refs, "sha256")
 
 \* the alignment universe: every image with <= 3 layers and every placement of <= 2 empty history entries
@@ -21,6 +22,7 @@ ImagesShapes == {Img(2, <<"L", "E", "L">>, sh, fam, comp, data, refs) :
                    sh \in {"image", "index"}, fam \in {"oci", "docker"}, comp \in {"gzip", "none"}, data \in BOOLEAN, refs \in BOOLEAN}
                 \cup {Img(1, <<>>, "image", "oci", "gzip", FALSE, FALSE)}
                 \cup {ImgA(2, <<"L", "E", "L">>, sh, "oci", "gzip", data, TRUE, "sha512") : sh \in {"image", "index"}, data \in BOOLEAN}
+                \cup {UT(Img(2, <<"L", "E", "L">>, sh, fam, comp, FALSE, FALSE)) : sh \in {"image", "index"}, fam \in {"oci", "docker"}, comp \in {"gzip", "none"}}
 
 O(k) == [k |-> k, a |-> "", v |-> "", i |-> 0, s |-> {}]
 Oa(k, a) == [O(k) EXCEPT !.a = a]
@@ -52,7 +54,12 @@ OptsMeta == {Oa("AddLayer", "linux/amd64"), Os("RmCreatedBy", {}, "^nomatch$"), 
              Oav("Annotation", "keep.anno", ""), Oav("Label", "keep", ""), Oa("Platform", "linux/amd64"), Oa("Platform", "linux/riscv64"),
              Oa("ConfigTime", "label"), Oa("ConfigTime", "base1"), Oa("ConfigTime", "baseref"), Oa("ConfigTime", "fromlabel"),
              Oa("LayerTime", "label"), Oa("LayerTime", "baseref"), Oa("LayerTime", "max"), Oa("LayerTime", "fromlabel"),
-             Oa("FileTarTime", "after"), Oa("StripFile", "/l3/")}
+             Oa("FileTarTime", "after"), Oa("StripFile", "/l3/"),
+             \* round 4: "set X to the value it already has" for every option that takes a value
+             Oa("ConfigTime", "same"), Oa("ConfigTime", "samezone"), Oa("ConfigTime", "samelocal"), Oa("ConfigTime", "sameafter"),
+             Oa("LayerTime", "same"), Oa("LayerTime", "samezone"), Oa("LayerTime", "samelocal"), Oa("LayerTime", "sameafter"),
+             Oa("FileTarTime", "same"), Oa("FileTarTime", "samezone"),
+             Oa("Entrypoint", "/entry"), Oa("ExposeAdd", "8080/tcp"), Oa("ExposeRm", "8080/tcp"), Oa("VolumeAdd", "/data"), Oa("VolumeRm", "/data")}
 OptsAll == OptsAlign \cup OptsMeta
 \* the interaction core for deeper programs
 OptsCore == {Oa("AddLayer", ""), Oi("RmIndex", 0), Oi("RmIndex", 1), Os("RmCreatedBy", {"L1", "L3"}, "^ADD L(1|3)$"),
